@@ -25,7 +25,7 @@ RULE = (
     "non-roots; non-trivial = tree with >= 3 nodes; distinct = distinct (tree fingerprint, predicate sets / xpath text)"
 )
 ASSUMPTIONS = ["predicates are pure functions of the offered node"]
-MUST_SEE = ["falsy_callable_predicates", "abandoned_traversals", "xpath_after_class_redefinition", "skip_self_with_prune", "start_pruned", "prune_not_filter_with_desc", "list_fields", "index_ge_10_match", "xpath_nonempty", "malformed_rejected", "calculate_xpath_nodes", "gather_calls", "two_anywhere_left_steps", "recalculated_after_change"]
+MUST_SEE = ["children_lists_mutated_by_caller", "falsy_callable_predicates", "abandoned_traversals", "xpath_after_class_redefinition", "skip_self_with_prune", "start_pruned", "prune_not_filter_with_desc", "list_fields", "index_ge_10_match", "xpath_nonempty", "malformed_rejected", "calculate_xpath_nodes", "gather_calls", "two_anywhere_left_steps", "recalculated_after_change"]
 CONFIG = {
     "quick": {"shards": 16, "small_trees": 200, "exh_n": 4, "large_trees": 60, "xpaths": 40, "watchdog_s": 600},
     "thorough": {"shards": 32, "small_trees": 300, "exh_n": 6, "large_trees": 150, "xpaths": 100, "watchdog_s": 3400},
@@ -83,6 +83,15 @@ def run_shard(ctx):
         def bad(mech, what, **d):
             d["tree"] = spec_json(s)
             ctx.violation(mech, what, d)
+
+        if case % 2 == 0:
+            # the caller does what it likes with the lists `children` hands out: nothing the library answers later depends on them
+            for o in nodes:
+                ch = o.children
+                if isinstance(ch, list):
+                    ch.reverse()
+                    del ch[: (len(ch) + 1) // 2]  # (nothing is added: a library that did depend on the list must not be sent into a cycle)
+            ctx.count("children_lists_mutated_by_caller")
 
         # ---------------------------------------------------------------- reference walkers (start included unless skipped)
         def ref(kind, pruned, skip_self):
